@@ -1,6 +1,7 @@
 import NasdaqModel.Driver.Sexp
 import NasdaqModel.Model.Monitor
 import NasdaqModel.Model.MonitorLate
+import NasdaqModel.Model.MonitorFlow
 /-
 Line protocol for Model/Monitor.lean.
 
@@ -8,11 +9,13 @@ Line protocol for Model/Monitor.lean.
       -> ok now=<t> closed=<none | t:mon | t:app> writes=((t hb|app live|dead)*)          (chronological)
   hbl.run <role> <clientI> <serverI> (<lev>*)      lev ::= ev | (hold k) | resume       (Model/MonitorLate.lean: the loop held up for k units)
       -> as hb.run
+  hbf.run <role> <clientI> <serverI> (<fev>*)      fev ::= ev | wpause | wresume        (Model/MonitorFlow.lean: the transport calls
+      -> as hb.run                                                                       pause_writing() / resume_writing())
   mon.run <interval> <tol> <true|false> (<mev>*)                       mev ::= (adv k) | ping
       -> ok now=<t> running=<bool> trips=(t*)
 -/
 namespace NasdaqModel.Driver.MonitorD
-open NasdaqModel Sexp Monitor MonitorLate
+open NasdaqModel Sexp Monitor MonitorLate MonitorFlow
 
 def roleOf : Sexp → Option Role
   | .atom "soupClient" => some .soupClient
@@ -50,6 +53,16 @@ def levsOf : List Sexp → Option (List LEv)
       let b ← evsOf [e]
       let r ← levsOf rest
       some (b.map LEv.base ++ r)
+
+/-- events of the flow-control model: the tokens of `evsOf`, `wpause`, `wresume` -/
+def fevsOf : List Sexp → Option (List FEv)
+  | [] => some []
+  | .atom "wpause" :: rest => do some (FEv.pauseWriting :: (← fevsOf rest))
+  | .atom "wresume" :: rest => do some (FEv.resumeWriting :: (← fevsOf rest))
+  | e :: rest => do
+      let b ← evsOf [e]
+      let r ← fevsOf rest
+      some (b.map FEv.base ++ r)
 
 def mevsOf : List Sexp → Option (List MEv)
   | [] => some []
@@ -98,6 +111,12 @@ def handle (op : String) (args : List Sexp) : Option String :=
       let si ← asNat si
       let evs ← levsOf evs
       some (sessStr ((loginL role ⟨ci, si⟩).run evs).s)
+  | "hbf.run", [role, ci, si, .list evs] => do
+      let role ← roleOf role
+      let ci ← asNat ci
+      let si ← asNat si
+      let evs ← fevsOf evs
+      some (sessStr ((loginF role ⟨ci, si⟩).run evs).s)
   | "mon.run", [i, n, .atom stop, .list evs] => do
       let i ← asNat i
       let n ← asNat n
